@@ -78,17 +78,22 @@ def splitLines (s : Bytes) : List Bytes :=
 
 /-- `std::stoi(str)`: skip leading whitespace, optional sign, decimal digits (a prefix is enough);
 `invalid_argument` without a digit, `out_of_range` outside `int`. -/
-def stoi (s : Bytes) : Res Int :=
-  let s := s.dropWhile isWs
-  let (neg, s) := match s with
-    | c :: r => if c == 45 then (true, r) else if c == 43 then (false, r) else (false, s)
-    | [] => (false, s)
-  let ds := s.takeWhile (fun c => 48 ≤ c && c ≤ 57)
+def isDigit (c : UInt8) : Bool := 48 ≤ c && c ≤ 57
+
+def stoiDigits (neg : Bool) (ds : Bytes) : Res Int :=
   if ds.isEmpty then .threw .inv
   else
     let v : Nat := ds.foldl (fun a c => a * 10 + (c.toNat - 48)) 0
     let z : Int := if neg then -(v : Int) else (v : Int)
     if z < -2147483648 ∨ z > 2147483647 then .threw .oor else .ok z
+
+def stoi (s : Bytes) : Res Int :=
+  match s.dropWhile isWs with
+  | c :: r =>
+    if c == 45 then stoiDigits true (r.takeWhile isDigit)
+    else if c == 43 then stoiDigits false (r.takeWhile isDigit)
+    else stoiDigits false ((c :: r).takeWhile isDigit)
+  | [] => stoiDigits false []
 
 /-- vertex parser of `loadTextEdgeList` (as repaired: negative indices are rejected) -/
 def vertexOfIndex (s : Bytes) : Res Nat :=
